@@ -91,7 +91,7 @@ def canon(x, depth=0):
         return ["tuple"] + [canon(e, depth + 1) for e in x]
     if isinstance(x, (list, tuple)):
         return [canon(e, depth + 1) for e in x]
-    if isinstance(x, dict):
+    if isinstance(x, dict) or (hasattr(x, "items") and hasattr(x, "keys") and hasattr(x, "__getitem__") and not isinstance(x, np.ndarray) and type(x).__name__ in ("mappingproxy", "OrderedDict", "ChainMap", "MappingProxyType")):
         items = [(canon(k, depth + 1), canon(v, depth + 1)) for k, v in x.items()]
         if not KEEP_ORDER[0]:
             try:
@@ -108,7 +108,7 @@ def canon(x, depth=0):
     if tn in ("NortenElement", "TheveninElement"):
         return ["elm", x.name, x.type, canon(_safe(lambda: x.Z)), canon(_safe(lambda: x.Y)),
                 canon(_safe(lambda: x.V)), canon(_safe(lambda: x.I))]
-    if tn == "Schematic":
+    if tn == "Schematic" or any(k.__name__ == "Schematic" for k in type(x).__mro__):
         from .ops_draw import canon_schematic
         return canon_schematic(x)
     if tn == "Branch":
